@@ -31,8 +31,7 @@ m = dict(
                baseline_off_cmd='cmake --build /repo/_build && ctest --test-dir /repo/_build -j8 --timeout 900', source_commits=[], add_only=True),
     engines=[dict(name='E2', path='/verif/engine/symex.py', serves_properties=[c['property_id'] for c in checks if c['engine'] != 'E1'],
                   kind_free_text='own symbolic executor for clang-14 LLVM IR (python + z3): symbolic scalars, concrete guarded address space, solver-decided branches/assertions, COW state forking, native replay'),
-             dict(name='E1', path='/verif/engine/e1.py', serves_properties=[c['property_id'] for c in checks if c['engine'] in ('E1', 'E1+E2')],
-                  kind_free_text='LLVM IR -> C translator + CBMC 6.11 (bit-precise bounded model checking with unwinding assertions)')],
+             ],
     checks=checks,
     not_applicable=[dict(property_id=k, reason=v) for k, v in sorted(na.items())],
     notes='Exit codes of ./check: 0 property held on everything explored; 1 VIOLATION (replayed natively); 2 INCONCLUSIVE (bound exceeded, solver unknown, time budget, engine disagreement) - nothing is claimed from an inconclusive run.',
